@@ -3,6 +3,7 @@
 use hcommon::Report;
 
 mod breaker;
+mod watermark;
 
 fn main() {
     if std::env::var("VERIF_LOUD").is_err() {
@@ -10,7 +11,9 @@ fn main() {
     }
     let args: Vec<String> = std::env::args().collect();
     let mut rep = Report::new();
+    let rt = tokio::runtime::Builder::new_multi_thread().worker_threads(4).enable_all().build().unwrap();
     match args[1].as_str() {
+        "watermark" => rt.block_on(watermark::watermark_cmd(&mut rep, &args[2])),
         "breaker" => breaker::breaker_cmd(&mut rep, &args[2], &args[3], args.get(4).map(|s| s.as_str()).unwrap_or("conform")),
         other => panic!("unknown subcommand {other}"),
     }
